@@ -1,7 +1,7 @@
 (** C04 — property theorems only.  The full liveness statement is a Definition in C04/Open.v
     ([C04_liveness_full_statement]); what is proved here are its ingredients. *)
 From Coq Require Import List ZArith NArith Arith Bool.
-From Kardia Require Import C01.Power C04.Model C04.Proofs C04.ProofsRound C04.Open.
+From Kardia Require Import C01.Power C04.Model C04.Proofs C04.ProofsRound C04.Open C04.MedianModel C04.ProofsMedian.
 Import ListNotations.
 
 (** The ticker never loses the latest timeout (consensus/ticker.go timeoutRoutine): after any
@@ -75,3 +75,31 @@ Theorem C04_maj23_unique :
     maj23 powers B B_eq_dec vs x -> maj23 powers B B_eq_dec vs y -> x = y.
 Proof. exact maj23_unique. Qed.
 Print Assumptions C04_maj23_unique.
+
+(** REFUTED: "the block time computed by MedianTime lies between timestamps of correct validators".
+    Witness: four validators of power 1, a commit of three signatures, one signer faulty (below one
+    third of the total power) with the earliest timestamp: types/time WeightedMedian ([median <=
+    weight] with median = 3/2 = 1) returns the faulty timestamp, which is before every correct one.
+    With such a LastCommit every correct proposer builds a block whose time is not after the previous
+    block's: the reachable permanent halt exhibited by the harness (class no-progress, "bft-time:").
+    The last conjunct: the strict comparison would have picked a correct timestamp. *)
+Theorem C04_median_byzantine_refuted :
+  let T := 4%Z in
+  (3 * faulty_weight witness < T)%Z /\ (2 * T < 3 * total_weight witness)%Z /\
+  median_time witness = Some 0%Z /\
+  (forall x, In x witness -> wt_faulty x = false -> (0 < wt_time x)%Z) /\
+  median_time_strict witness = Some 100%Z.
+Proof. exact median_byzantine_refuted. Qed.
+Print Assumptions C04_median_byzantine_refuted.
+
+(** Remark (the repair that was not applied because it changes the time of existing blocks): with
+    [median < weight] faulty signers holding less than half of the present power cannot pull the
+    block time below every correct timestamp. *)
+Theorem C04_median_strict_lower_bound :
+  forall present t,
+    Forall (fun x => (0 <= wt_weight x)%Z) present ->
+    (2 * faulty_weight present < total_weight present)%Z ->
+    median_time_strict present = Some t ->
+    exists c, In c present /\ wt_faulty c = false /\ (wt_time c <= t)%Z.
+Proof. exact median_strict_lower_bound. Qed.
+Print Assumptions C04_median_strict_lower_bound.
